@@ -213,9 +213,9 @@ theorem unstarted_lt_entryFuel {s : Split} {R R' : Registry} (hr : RegsOK s R R'
   omega
 
 section SplitConv
-variable {s : Split} {R R' : Registry} (opts : Opts) (plug : Plug)
+variable {s : Split} {R R' : Registry} (opts : Opts) (plug plug' : Plug)
   (ht : TextOK s) (hr : RegsOK s R R') (hl : LinkOK s R (linkAll R).1 (linkAll R').1)
-  (hW : (Ws s R R' opts plug).OK)
+  (hW : (Ws s R R' opts plug plug').OK)
 
 /-- What the module cache of the split conversion holds. -/
 def SCache (s : Split) (R R' : Registry) (opts : Opts) (plug : Plug) (p : Nat × Entry) : Prop :=
@@ -223,8 +223,8 @@ def SCache (s : Split) (R R' : Registry) (opts : Opts) (plug : Plug) (p : Nat ×
   (p.1 = s.owner.seq ∧ REb s.σ p.2 (pp s R R' opts plug (entryFuel R') [] s.owner.stmt).1) ∨
   PureOf s R R' opts plug p
 
-structure SInv (s : Split) (R R' : Registry) (opts : Opts) (plug : Plug) (done : List Mod) (st : TState) : Prop where
-  coh : Coh (Ws s R R' opts plug) st.gcache
+structure SInv (s : Split) (R R' : Registry) (opts : Opts) (plug plug' : Plug) (done : List Mod) (st : TState) : Prop where
+  coh : Coh (Ws s R R' opts plug plug') st.gcache
   cache : ∀ p ∈ st.cache, SCache s R R' opts plug p
   cached : ∀ X ∈ done, ∃ e, (X.seq, e) ∈ st.cache
   pre : (∀ p ∈ st.cache, p.1 ≠ s.owner.seq) → st.merged = [] ∧ ∀ p ∈ st.cache, ∀ sb ∈ s.subs, p.1 ≠ sb.seq
@@ -234,10 +234,10 @@ structure SInv (s : Split) (R R' : Registry) (opts : Opts) (plug : Plug) (done :
 include ht hr hl hW in
 /-- The conversion of the modules of the split registry, in key order. -/
 theorem conv_split_mods :
-    SInv s R R' opts plug ((mkeysOf R).map (IncludeLink.repl s))
+    SInv s R R' opts plug plug' ((mkeysOf R).map (IncludeLink.repl s))
       (((mkeysOf R).map (IncludeLink.repl s)).foldl
-        (fun st m => (toEntry (envOf R' opts plug) (entryFuel R') m [] m.stmt [] st).2) {}) := by
-  refine foldl_prefix_inv (SInv s R R' opts plug) _ _ _
+        (fun st m => (toEntry (envOf R' opts plug') (entryFuel R') m [] m.stmt [] st).2) {}) := by
+  refine foldl_prefix_inv (SInv s R R' opts plug plug') _ _ _
     ⟨fun p hp => (by cases hp), fun p hp => (by cases hp), fun X hX => (by cases hX),
       fun _ => ⟨rfl, fun p hp => (by cases hp)⟩, fun ⟨p, hp, _⟩ => (by cases hp)⟩ ?_
   intro done X' st hXk hinv
@@ -280,13 +280,13 @@ theorem conv_split_mods :
       subst hxm'
       rw [IncludeLink.repl_m] at hfind hnone hX' hdone ⊢
       obtain ⟨hmerged, hnosub⟩ := hinv.pre hnone
-      have hpinv : PInv s R R' opts plug st [] :=
+      have hpinv : PInv s R R' opts plug plug' st [] :=
         ⟨hinv.coh, fun sb _ => (by rw [hmerged]; rfl), fun k hk => (by rw [hmerged] at hk; cases hk),
           fun p hp sb hsb he => absurd he (hnosub p hp sb hsb), fun n hn => (by cases hn)⟩
       have hown : s.owner ∉ s.subs := fun h => sub_seq_ne_owner hr h rfl
-      have G := part_conv opts plug ht hr hl hW f s.owner (List.mem_cons_self ..) [] st [] hpinv
+      have G := part_conv opts plug plug' ht hr hl hW f s.owner (List.mem_cons_self ..) [] st [] hpinv
         (fun h => absurd h hown) (onlyMods_nil _) (fun _ _ h => by simp at h) (by simp) hfind
-        (by rw [← hf]; exact top_need R' opts plug s.owner hX')
+        (by rw [← hf]; exact top_need R' opts plug' s.owner hX')
         (by rw [← hf]; exact unstarted_lt_entryFuel hr)
       refine ⟨G.inv.coh, ?_, hdone _ G.grows ⟨_, G.self⟩, ?_, ?_⟩
       · intro p hp
@@ -303,15 +303,15 @@ theorem conv_split_mods :
         · exact h
     · -- another module
       rw [IncludeLink.repl_of_ne hxm] at hfind hnone hX' hdone ⊢
-      have hcr : (Ws s R R' opts plug).CR x [x.stmt] x [x.stmt] := Or.inr ⟨hx, hxm, rfl, rfl⟩
+      have hcr : (Ws s R R' opts plug plug').CR x [x.stmt] x [x.stmt] := Or.inr ⟨hx, hxm, rfl, rfl⟩
       have hmx : isModKw x.stmt = true := by unfold isModKw; rw [(hr.R_modules_only x hx).1]; rfl
-      have mc : REb s.σ (toEntry (envOf R' opts plug) (f + 1) x [] x.stmt [] st).1 (pmodOf R opts plug x) ∧
-          Coh (Ws s R R' opts plug) (toEntry (envOf R' opts plug) (f + 1) x [] x.stmt [] st).2.gcache ∧
-          (toEntry (envOf R' opts plug) (f + 1) x [] x.stmt [] st).2.cache =
-            st.cache ++ [(x.seq, (toEntry (envOf R' opts plug) (f + 1) x [] x.stmt [] st).1)] ∧
-          (toEntry (envOf R' opts plug) (f + 1) x [] x.stmt [] st).2.merged = st.merged :=
-        mod_conv (Ws s R R' opts plug) hW x x hX' hmx (hr.R_modules_only x hx).2.2 hcr f [] st (onlyMods_nil _) (by simp)
-          hfind (by rw [← hf]; exact top_need R' opts plug x hX') hinv.coh
+      have mc : REb s.σ (toEntry (envOf R' opts plug') (f + 1) x [] x.stmt [] st).1 (pmodOf R opts plug x) ∧
+          Coh (Ws s R R' opts plug plug') (toEntry (envOf R' opts plug') (f + 1) x [] x.stmt [] st).2.gcache ∧
+          (toEntry (envOf R' opts plug') (f + 1) x [] x.stmt [] st).2.cache =
+            st.cache ++ [(x.seq, (toEntry (envOf R' opts plug') (f + 1) x [] x.stmt [] st).1)] ∧
+          (toEntry (envOf R' opts plug') (f + 1) x [] x.stmt [] st).2.merged = st.merged :=
+        mod_conv (Ws s R R' opts plug plug') hW x x hX' hmx (hr.R_modules_only x hx).2.2 hcr f [] st (onlyMods_nil _) (by simp)
+          hfind (by rw [← hf]; exact top_need R' opts plug' x hX') hinv.coh
       obtain ⟨m1, m2, m3, m4⟩ := mc
       refine ⟨m2, ?_, hdone _ (fun p hp => by rw [m3]; exact List.mem_append_left _ hp)
         ⟨_, by rw [m3]; exact List.mem_append_right _ (List.mem_singleton.2 rfl)⟩, ?_, ?_⟩
@@ -346,7 +346,7 @@ theorem conv_split_mods :
         exact ⟨e, by rw [m3]; exact List.mem_append_left _ he⟩
 
 
-omit opts plug in
+omit opts plug plug' in
 theorem find?_isSome_of_key {l : List (Nat × Entry)} {k : Nat} {e : Entry} (h : (k, e) ∈ l) :
     ∃ p, l.find? (·.1 == k) = some p ∧ p ∈ l ∧ p.1 = k := by
   cases hf : l.find? (·.1 == k) with
@@ -360,18 +360,18 @@ include ht hr hl hW in
 /-- The conversion state of the split registry: the submodules, converted last, are all cached. -/
 theorem conv_split_state
     (hall : ∀ sb ∈ s.subs, (pp s R R' opts plug (entryFuel R') [] s.owner.stmt).2.contains sb.name = true) :
-    SInv s R R' opts plug ((mkeysOf R).map (IncludeLink.repl s)) (tstate R' opts plug) := by
-  have hM := conv_split_mods opts plug ht hr hl hW
+    SInv s R R' opts plug plug' ((mkeysOf R).map (IncludeLink.repl s)) (tstate R' opts plug') := by
+  have hM := conv_split_mods opts plug plug' ht hr hl hW
   unfold tstate
   rw [keyOrder_eq, mkeys_split hr, List.foldl_append]
   generalize ((mkeysOf R).map (IncludeLink.repl s)).foldl
-    (fun st m => (toEntry (envOf R' opts plug) (entryFuel R') m [] m.stmt [] st).2) {} = stM at hM ⊢
+    (fun st m => (toEntry (envOf R' opts plug') (entryFuel R') m [] m.stmt [] st).2) {} = stM at hM ⊢
   -- the owner has been converted
   have hown : s.owner ∈ (mkeysOf R).map (IncludeLink.repl s) :=
     List.mem_map.2 ⟨s.m, m_mem_mkeys hr, IncludeLink.repl_m s⟩
   obtain ⟨eo, heo⟩ := hM.cached s.owner hown
   have hsubs := hM.post ⟨_, heo, rfl⟩
-  have hsame : (skeysOf R').foldl (fun st m => (toEntry (envOf R' opts plug) (entryFuel R') m [] m.stmt [] st).2) stM = stM := by
+  have hsame : (skeysOf R').foldl (fun st m => (toEntry (envOf R' opts plug') (entryFuel R') m [] m.stmt [] st).2) stM = stM := by
     refine foldl_inv (fun st => st = stM) _ _ _ rfl ?_
     intro st X hX hst
     subst hst
